@@ -12,6 +12,7 @@ from vlib.runner import SubProp, Violation
 from mir_eval import alignment, beat, melody, multipitch, onset, segment, tempo, transcription, transcription_velocity
 
 PROPERTY_ID = "C07"
+SCALE = (3, 3)   # budget multiplier (quick, thorough) applied to the n=(...) of every generated sub-property
 LEVEL = "exploration"
 RULE = ("an input, one tolerance axis and an ordered pair t1 <= t2 (incl. t1 = t2 and values exactly on lattice distances) with all other parameters "
         "fixed, or strict=True vs strict=False; inputs from the exact lattices and from realistic decimals (round(x, 3) times); scores under t2 must "
